@@ -9,8 +9,10 @@ The result is written to /verif/seeded/<id>/result.json.  Never commits anything
 """
 import json, os, subprocess, sys, time
 
-ROOT = "/verif"
-REPO = "/repo"
+# (a scratch copy of /verif with its own clone of /repo may run the same script: the regression over all kept changes
+# runs several such copies side by side, see DESIGN section 15)
+ROOT = os.path.dirname(os.path.dirname(os.path.abspath(__file__)))
+REPO = os.environ.get("VERIF_REPO", "/repo")
 
 
 def sh(cmd, **kw):
